@@ -437,6 +437,11 @@ class HostConnection(object):
         start = time.time()
         remaining = timeout
         while True:
+            # shutdown() wakes the borrowers waiting below; the slots freed by the requests
+            # that fail on the closed connection are not for them
+            if self.is_shutdown:
+                raise ConnectionException(
+                    "Pool for %s is shutdown" % (self.host,), self.host)
             with conn.lock:
                 if not (conn.orphaned_threshold_reached and conn.is_closed) and conn.in_flight < conn.max_request_id:
                     conn.in_flight += 1
